@@ -127,7 +127,8 @@ def wiring_cases(draw, tier):
     m = draw(st.sampled_from(GRID)); r = draw(st.sampled_from(GRID))
     return dict(layers=L, mult=[m.numerator, m.denominator], ratio=[r.numerator, r.denominator],
                 default_rule=draw(st.integers(0, 5)) == 0, which=draw(st.sampled_from(["decoder", "stack"])),
-                convert=draw(st.sampled_from([None, None, "bfloat16", "half", "double", "float"])), positional=draw(st.integers(0, 2)) == 0)
+                convert=draw(st.sampled_from([None, None, "bfloat16", "half", "double", "float"])), positional=draw(st.integers(0, 2)) == 0,
+                reload=draw(st.sampled_from([None, None, "in-place", "fresh"])))
 
 
 def run_wiring(case) -> CaseResult:
@@ -163,6 +164,24 @@ def run_wiring(case) -> CaseResult:
     except Exception as e:  # noqa: BLE001
         res.fail(exc_bucket("C07.wiring.raises", e), f"{e}")
         return res
+    if case.get("reload"):
+        # a checkpoint round trip (state_dict -> load_state_dict, in place or into an identically built stack) must not touch the
+        # residual weights either
+        try:
+            if case["reload"] == "in-place":
+                stack.load_state_dict(stack.state_dict())
+            else:
+                import copy as _copy
+                sd = _copy.deepcopy(stack.state_dict())
+                from unit_scaling._modules import TransformerStack as _TS
+                fresh = _TS(layers=L, hidden_size=4, heads=1, is_causal=True, **kw)
+                fresh.load_state_dict(sd)
+                stack = fresh
+                calls[:] = calls[: 2 * L] if calls else calls   # (the second construction queried the rule again)
+            res.labels.append("state_dict-round-trip:" + case["reload"])
+        except Exception as e:  # noqa: BLE001
+            res.fail(exc_bucket("C07.wiring.raises:reload", e), f"{e}")
+            return res
     if case.get("convert"):
         # a dtype conversion of the constructed model must not touch the residual weights (they are hyper-parameters, not tensors)
         stack = getattr(stack, case["convert"])() if case["convert"] != "bfloat16" else stack.to(torch.bfloat16)
